@@ -87,7 +87,14 @@ def run_resilient(ctx, mode, in_path, out_path, max_aborts=4, chunk=20000):
     max_aborts the rest runs in the plain build (recorded in the evidence)."""
     inputs = open(in_path).read().splitlines()
     n = len(inputs)
-    bd_asan, bd_plain = ctx.build("asan", "funcabi"), ctx.build("plain", "funcabi")
+    bd_asan = ctx.extra.get("_bd_asan") or ctx.build("asan", "funcabi")
+    ctx.extra["_bd_asan"] = bd_asan
+    plain = {}
+
+    def bd_plain_dir():          # the plain build is only needed after a sanitizer abort: built lazily
+        if "d" not in plain:
+            plain["d"] = ctx.build("plain", "funcabi")
+        return plain["d"]
     out, pos, aborts = [], 0, 0
     tin, tout = ctx.path(f"_{mode}_part.in"), ctx.path(f"_{mode}_part.out")
     while pos < n:
@@ -96,7 +103,7 @@ def run_resilient(ctx, mode, in_path, out_path, max_aborts=4, chunk=20000):
         if os.path.exists(tout):
             os.remove(tout)
         use_plain = aborts >= max_aborts
-        rc, _, err = vlib.run_harness(ctx, bd_plain if use_plain else bd_asan, "funcabi", [mode, tin, tout], timeout=1800)
+        rc, _, err = vlib.run_harness(ctx, bd_plain_dir() if use_plain else bd_asan, "funcabi", [mode, tin, tout], timeout=1800)
         got = [l for l in open(tout).read().splitlines() if l.startswith("{") and l.endswith("}")] if os.path.exists(tout) else []
         out += got
         pos += len(got)
@@ -108,7 +115,7 @@ def run_resilient(ctx, mode, in_path, out_path, max_aborts=4, chunk=20000):
         aborts += 1
         summ = san_summary(err)
         open(tin, "w").write(inputs[pos] + "\n")
-        rc2, _, err2 = vlib.run_harness(ctx, bd_plain, "funcabi", [mode, tin, tout], timeout=300)
+        rc2, _, err2 = vlib.run_harness(ctx, bd_plain_dir(), "funcabi", [mode, tin, tout], timeout=300)
         one = [l for l in open(tout).read().splitlines() if l.startswith("{")]
         if rc2 != 0 or len(one) != 1:
             raise Broken(f"plain build cannot process input {pos} either (rc={rc2}): {err2[-800:]}")
@@ -159,12 +166,13 @@ def sig_text(o):
     return f"{o['env']}/{o['conv']} {o['ret']}({','.join(o['args'])}){va}"
 
 
-def gen_signatures(ctx, tag, maxargs, long_, reduced, simulate=None, depth=None, slim=None):
+def gen_signatures(ctx, tag, maxargs, long_, reduced, simulate=None, depth=None, slim=None, workers=8):
     slim = ctx.quick if slim is None else slim
+    reduced = reduced if isinstance(reduced, str) else ("yes" if reduced else "no")
     cfg = ctx.path(f"gen_{tag}.cfg")
     open(cfg, "w").write(f"SPECIFICATION Spec\nCONSTANTS\n  MaxArgs = {maxargs}\n  Long = {'TRUE' if long_ else 'FALSE'}\n"
-                         f"  Reduced = {'TRUE' if reduced else 'FALSE'}\n  Slim = {'TRUE' if slim else 'FALSE'}\nINVARIANT Export\n")
-    r = vlib.run_tlc(ctx, os.path.join(SPEC, "ABIGen.tla"), cfg, workers=8, timeout=1500, tag=f"gen_{tag}", heap="6g",
+                         f"  Reduced = \"{reduced}\"\n  Slim = {'TRUE' if slim else 'FALSE'}\nINVARIANT Export\n")
+    r = vlib.run_tlc(ctx, os.path.join(SPEC, "ABIGen.tla"), cfg, workers=workers, timeout=1500, tag=f"gen_{tag}", heap="6g",
                      simulate=simulate, depth=depth, seed=ctx.seed if simulate else None)
     if r.kind != "ok":
         raise Broken(f"signature generation ({tag}) failed: {r.out[-1500:]}")
@@ -178,38 +186,43 @@ def gen_signatures(ctx, tag, maxargs, long_, reduced, simulate=None, depth=None,
     return sigs
 
 
-def check_observations(ctx, obs_path, nobs, tag, shards=16):
-    """Pointwise TLC check (report mode) sharded over JVMs.  Returns list of (global index, diag)."""
+def check_observations(ctx, obs_path, nobs, tag):
+    """Pointwise TLC check (report mode): few large JVMs (<= 40000 observations each; inside the JVM the observations
+    are fanned out over blocks so that all workers are busy).  Returns ([(global index, diag)], lines)."""
     lines = open(obs_path).read().splitlines()
     if len(lines) != nobs:
         raise Broken(f"harness produced {len(lines)} observations for {nobs} signatures")
-    shards = max(1, min(shards, (nobs + 1999) // 2000), (nobs + 11999) // 12000)      # <= 12000 observations per JVM
-    per = (nobs + shards - 1) // shards
+    per = 40000
     jobs = []
-    for s in range(shards):
+    for s in range((nobs + per - 1) // per):
         part = lines[s * per:(s + 1) * per]
-        if not part:
-            continue
         p = ctx.path(f"obs_{tag}_{s}.ndjson")
         open(p, "w").write("\n".join(part) + "\n")
         jobs.append((s, p, len(part)))
 
     def one(job):
         s, p, n = job
-        r = vlib.run_tlc(ctx, os.path.join(SPEC, "ABICheck.tla"), os.path.join(SPEC, "ABICheck.cfg"), workers=1, timeout=2400,
-                         env={"OBS": p, "MODE": "report", "JAVA_TOOL_OPTIONS": "-XX:ParallelGCThreads=2"}, tag=f"chk_{tag}_{s}", heap="3g")
+        r = vlib.run_tlc(ctx, os.path.join(SPEC, "ABICheck.tla"), os.path.join(SPEC, "ABICheck.cfg"), workers=8, timeout=2400,
+                         env={"OBS": p, "MODE": "report", "JAVA_TOOL_OPTIONS": "-XX:ParallelGCThreads=4"}, tag=f"chk_{tag}_{s}", heap="8g")
         return job, r
 
-    res = []
-    with ThreadPoolExecutor(max_workers=14) as ex:
+    res, info = [], {}
+    with ThreadPoolExecutor(max_workers=3) as ex:
         for (s, p, n), r in ex.map(one, jobs):
-            if r.kind != "ok" or r.distinct != n:
-                raise Broken(f"ABICheck shard {s}: kind={r.kind} distinct={r.distinct}/{n}\n" + "\n".join(r.out.splitlines()[-25:]))
+            nb = 1 if n <= 400 else 64
+            if r.kind != "ok" or r.distinct != n + nb + 1:
+                raise Broken(f"ABICheck shard {s}: kind={r.kind} distinct={r.distinct}/{n + nb + 1}\n" + "\n".join(r.out.splitlines()[-25:]))
             ctx.states += r.distinct
             ctx.transitions += r.generated
             for v in jprints(r.out):
                 if v and v[0] == "NONCONF":
                     res.append((s * per + v[1] - 1, v[2]))
+                elif v and v[0] == "INFO":
+                    k = f"{v[2]}/{v[3]}:{v[4]}"
+                    info[k] = info.get(k, 0) + 1
+    if info:
+        # conventions no platform ABI governs (light-call, ...): internal consistency is reported, never judged
+        ctx.extra["unjudged_consistency_observations"] = dict(sorted(info.items()))
     return res, lines
 
 
@@ -223,7 +236,7 @@ def confirm_strict(ctx, module, cfg, envname, path, tag):
     raise Broken(f"strict confirmation failed to run ({tag}): {r.out[-1200:]}")
 
 
-def report_findings(ctx, groups, module, cfg, envname, what_of, sig_of, tag):
+def report_findings(ctx, groups, module, cfg, envname, what_of, sig_of, tag, keyof):
     """groups: key -> list of (record line, diag).  Confirms each key on its minimal input and reports it."""
     def simplicity(it):
         r = json.loads(it[0])
@@ -238,10 +251,29 @@ def report_findings(ctx, groups, module, cfg, envname, what_of, sig_of, tag):
         rp = os.path.join(rdir, re.sub(r"[^A-Za-z0-9_.-]+", "_", key)[:120] + ".ndjson")
         open(rp, "w").write(items[0][0] + "\n")
         todo.append((n, key, items, rp))
-    with ThreadPoolExecutor(max_workers=12) as ex:
-        confirmed = list(ex.map(lambda t: confirm_strict(ctx, module, cfg, envname, t[3], f"strict_{tag}_{t[0]}"), todo))
-    for (n, key, items, rp), ok in zip(todo, confirmed):
-        if not ok:
+    # second run: all minimal inputs again in one JVM (report mode) - each must be rejected again with the same key;
+    # keys that are not listed as known are additionally confirmed by a strict run (TLC exit 12) of their own
+    if todo:
+        bp = ctx.path(f"recheck_{tag}.ndjson")
+        open(bp, "w").write("".join(t[2][0][0] + "\n" for t in todo))
+        r = vlib.run_tlc(ctx, module, cfg, workers=2, timeout=900, env={envname: bp, "MODE": "report"}, tag=f"recheck_{tag}", heap="2g")
+        if r.kind != "ok":
+            raise Broken(f"re-check of the minimal inputs failed to run ({tag}): {r.out[-1200:]}")
+        again = {}
+        for v in jprints(r.out):
+            if v and v[0] == "NONCONF":
+                d = v[2][1:] if tag == "b" else v[2]
+                if tag == "b" and v[1] in again and again[v[1]][0] <= v[2][0]:
+                    continue
+                again[v[1]] = (v[2][0] if tag == "b" else 0, keyof(d))
+        for idx, t in enumerate(todo):
+            if again.get(idx + 1, (0, None))[1] != t[1]:
+                raise Broken(f"finding {t[1]} not repeated by the second run on {t[3]} (got {again.get(idx + 1)})")
+    unknown = [t for t in todo if t[1] not in ctx.known]
+    with ThreadPoolExecutor(max_workers=4) as ex:
+        confirmed = dict(zip([t[1] for t in unknown], ex.map(lambda t: confirm_strict(ctx, module, cfg, envname, t[3], f"strict_{tag}_{t[0]}"), unknown)))
+    for (n, key, items, rp) in todo:
+        if key in confirmed and not confirmed[key]:
             raise Broken(f"finding {key} not confirmed by the strict run on {rp}")
         line, diag = items[0]
         rec = json.loads(line)
@@ -266,9 +298,8 @@ def leg_a(ctx, bdir):
     q = ctx.quick
     sigs = []
     if q:
-        sigs += gen_signatures(ctx, "short", 2, False, False)
-        sigs += gen_signatures(ctx, "reduced3", 3, False, True)
-        sigs += gen_signatures(ctx, "long", 32, True, False, simulate=30, depth=33)
+        sigs += gen_signatures(ctx, "short", 2, False, "both")        # <=2 suffix behind prefixes + <=3 over the reduced types
+        sigs += gen_signatures(ctx, "long", 32, True, "no", simulate=30, depth=33, workers=2)
     else:
         sigs += gen_signatures(ctx, "short", 2, False, False)
         sigs += gen_signatures(ctx, "reduced3", 3, False, True)
@@ -296,12 +327,12 @@ def leg_a(ctx, bdir):
         o = json.loads(lines[i])
         ctx.add_sample({"signature": sig_text(o), "placement": [[f"{v['k']}:{v['g']}{v['id']}@{v['off']}{'*' if v['ind'] else ''}" for v in p] for p in o["a"]][:8],
                         "arg_stack_size": o["ass"]})
-    report_findings(ctx, groups, os.path.join(SPEC, "ABICheck.tla"), os.path.join(SPEC, "ABICheck.cfg"), "OBS", abi_what, sig_text, "a")
+    report_findings(ctx, groups, os.path.join(SPEC, "ABICheck.tla"), os.path.join(SPEC, "ABICheck.cfg"), "OBS", abi_what, sig_text, "a", abi_key)
 
 
 def model_validation(ctx):
     cfg = ctx.path("validate.cfg")
-    open(cfg, "w").write(f"SPECIFICATION Spec\nCONSTANTS\n  MaxSuffix = {2 if ctx.quick else 3}\nINVARIANT Export\n")
+    open(cfg, "w").write(f"SPECIFICATION Spec\nCONSTANTS\n  MaxSuffix = {1 if ctx.quick else 2}\nINVARIANT Export\n")
     r = vlib.run_tlc(ctx, os.path.join(SPEC, "ABIValidate.tla"), cfg, workers=4, timeout=900, tag="validate")
     if r.kind != "ok":
         raise Broken("ABIValidate failed: " + r.out[-1200:])
@@ -344,10 +375,10 @@ def case_text(c):
     return f"{c['env']}/{c['conv']} ({','.join(c['args'])}) -> ({', '.join(dst)}){extra}"
 
 
-def gen_cases(ctx, tag, consts, simulate=None, depth=None):
+def gen_cases(ctx, tag, consts, simulate=None, depth=None, workers=8):
     cfg = ctx.path(f"sgen_{tag}.cfg")
     open(cfg, "w").write("SPECIFICATION Spec\nCONSTANTS\n" + "".join(f"  {k} = {v}\n" for k, v in consts.items()) + "INVARIANT Export\n")
-    r = vlib.run_tlc(ctx, os.path.join(SPEC, "ArgShuffleGen.tla"), cfg, workers=8, timeout=1500, tag=f"sgen_{tag}", heap="6g",
+    r = vlib.run_tlc(ctx, os.path.join(SPEC, "ArgShuffleGen.tla"), cfg, workers=workers, timeout=1500, tag=f"sgen_{tag}", heap="6g",
                      simulate=simulate, depth=depth, seed=ctx.seed if simulate else None)
     if r.kind != "ok":
         raise Broken(f"assignment generation ({tag}) failed: {r.out[-1500:]}")
@@ -357,31 +388,29 @@ def gen_cases(ctx, tag, consts, simulate=None, depth=None):
     return [v[1] for v in jprints(r.out) if v and v[0] == "CASE"]
 
 
-def check_cases(ctx, out_path, ncases, tag, shards=16):
+def check_cases(ctx, out_path, ncases, tag):
     lines = open(out_path).read().splitlines()
     if len(lines) != ncases:
         raise Broken(f"harness produced {len(lines)} shuffle records for {ncases} cases")
-    shards = max(1, min(shards, (ncases + 999) // 1000), (ncases + 7999) // 8000)
-    per = (ncases + shards - 1) // shards
+    per = 30000
     jobs = []
-    for s in range(shards):
+    for s in range((ncases + per - 1) // per):
         part = lines[s * per:(s + 1) * per]
-        if part:
-            p = ctx.path(f"cases_{tag}_{s}.ndjson")
-            open(p, "w").write("\n".join(part) + "\n")
-            jobs.append((s, p, len(part)))
+        p = ctx.path(f"cases_{tag}_{s}.ndjson")
+        open(p, "w").write("\n".join(part) + "\n")
+        jobs.append((s, p, len(part)))
 
     def one(job):
         s, p, n = job
-        r = vlib.run_tlc(ctx, os.path.join(SPEC, "ArgShuffle.tla"), os.path.join(SPEC, "ArgShuffle.cfg"), workers=2, timeout=2400,
-                         env={"CASES": p, "MODE": "report", "JAVA_TOOL_OPTIONS": "-XX:ParallelGCThreads=2"}, tag=f"mach_{tag}_{s}", heap="3g")
+        r = vlib.run_tlc(ctx, os.path.join(SPEC, "ArgShuffle.tla"), os.path.join(SPEC, "ArgShuffle.cfg"), workers=8, timeout=2400,
+                         env={"CASES": p, "MODE": "report", "JAVA_TOOL_OPTIONS": "-XX:ParallelGCThreads=4"}, tag=f"mach_{tag}_{s}", heap="8g")
         return job, r
 
-    res, execd = [], 0
-    with ThreadPoolExecutor(max_workers=8) as ex:
+    res = []
+    with ThreadPoolExecutor(max_workers=3) as ex:
         for (s, p, n), r in ex.map(one, jobs):
-            if r.kind != "ok":
-                raise Broken(f"ArgShuffle shard {s}: kind={r.kind}\n" + "\n".join(r.out.splitlines()[-25:]))
+            if r.kind != "ok" or r.distinct < n:
+                raise Broken(f"ArgShuffle shard {s}: kind={r.kind} distinct={r.distinct} < {n}\n" + "\n".join(r.out.splitlines()[-25:]))
             ctx.states += r.distinct
             ctx.transitions += r.generated
             first = {}
@@ -402,9 +431,8 @@ def shuffle_what(diag):
 def leg_b(ctx, bdir):
     q = ctx.quick
     cases = []
-    cases += gen_cases(ctx, "perm", {"Mode": '"perm"', "MaxArgs": 4 if q else 5})
-    cases += gen_cases(ctx, "ext", {"Mode": '"ext"', "MaxArgs": 2})
-    cases += gen_cases(ctx, "mixed", {"Mode": '"mixed"', "MaxArgs": 3}, simulate=400 if q else 6000, depth=12)
+    cases += gen_cases(ctx, "static", {"Mode": '"static"', "MaxArgs": 3 if q else 5, "Full": "FALSE" if q else "TRUE"})
+    cases += gen_cases(ctx, "mixed", {"Mode": '"mixed"', "MaxArgs": 3, "Full": "FALSE"}, simulate=500 if q else 6000, depth=12, workers=2 if q else 8)
     uniq = {}
     for c in cases:
         uniq.setdefault(json.dumps(c, sort_keys=True), c)
@@ -435,7 +463,7 @@ def leg_b(ctx, bdir):
         o = json.loads(lines[i])
         ctx.add_sample({"assignment": case_text(o), "emitted": [i_["op"] + " " + ",".join(
             (f"{x['g']}{x['id']}:{x['sz']}" if x["k"] == "reg" else f"[gp{x['b']}{x['d']:+d}]:{x['sz']}" if x["k"] == "mem" else str(x["d"])) for x in i_["o"]) for i_ in o["insts"]][:10]})
-    report_findings(ctx, groups, os.path.join(SPEC, "ArgShuffle.tla"), os.path.join(SPEC, "ArgShuffle.cfg"), "CASES", shuffle_what, case_text, "b")
+    report_findings(ctx, groups, os.path.join(SPEC, "ArgShuffle.tla"), os.path.join(SPEC, "ArgShuffle.cfg"), "CASES", shuffle_what, case_text, "b", shuffle_key)
 
 
 # ----------------------------------------------------------------------------------------------------------
@@ -444,6 +472,8 @@ ASSUMPTIONS = [
     "by executing gcc-12 and clang-14 compiled callers on the host (vectorcall only with clang, stack offsets modulo the 32-byte home area clang omits on a non-Windows "
     "target) and its aapcs64 / apple64 parts (incl. Apple variadic and natural-size stack arguments) against clang-14 cross-compiled caller assembly; "
     "the i386 part is not validated automatically (spot-checked by hand against gcc -m32 and clang -target i386: regparm variadic => all on stack)",
+    "conventions no platform ABI governs (light-call 2-4, and every (environment, convention) pair ABI.tla maps to no ABI) are never judged: their internal "
+    "consistency results are only counted in the evidence (unjudged_consistency_observations)",
     "NOT asserted (consistency only: every argument has a location, no register twice, stack slots disjoint/aligned/inside the argument area, "
     "no argument or return register in the preserved set): MMX, mask, x87 and 4-byte vector types; 8-byte vectors outside sysv64/AArch64; 64-bit integers under "
     "fastcall/thiscall/regparm (compilers disagree); vector arguments of 32-bit conventions; 32-bit vectorcall; thiscall on non-Windows; vectorcall on a non-Windows x86-64 "
@@ -461,10 +491,12 @@ ASSUMPTIONS = [
 
 def run(ctx):
     bdir = ctx.build("asan", "funcabi")
+    ctx.extra["_bd_asan"] = bdir
     nval = model_validation(ctx)
     ctx.log(f"ABI.tla validated against gcc and clang: {nval} argument placements, 0 mismatches")
     leg_a(ctx, bdir)
     leg_b(ctx, bdir)
+    ctx.extra.pop("_bd_asan", None)
     ctx.assumptions += ASSUMPTIONS
     vlib.write_evidence(ctx, "model_checking",
         rule="evaluations = signatures classified by the real FuncDetail::init() and judged by TLC against ABI.tla + instructions of real emit_args_assignment() "
